@@ -592,8 +592,8 @@ Section Main.
     assert (Hoi : offsets_increasing ois) by (unfold offsets_increasing; now rewrite Hoff).
     assert (Hhd : ois <> [] -> exists i r, ois = (0, i) :: r).
     { intros Hne. destruct ois as [|[o i] r]; [congruence|].
-      destruct ps as [|p ps']; [discriminate|]. cbn [map fst] in Hoff. inversion Hoff as [[Ho _]].
-      rewrite (Hfirst p ps' eq_refl). eauto. }
+      destruct ps as [|p ps']; [discriminate|]. cbn [map fst] in Hoff. injection Hoff as Ho _.
+      rewrite (Hfirst p ps' eq_refl) in Ho. subst o. eauto. }
     exists ps, ois, st1, st2. split; [reflexivity|]. split; [exact Ed|]. split; [exact Hoff|].
     split; [exact Hoi|]. split; [exact Hhd|]. cbv zeta. split; [exact Es|].
     intros Hne Hts. specialize (Hhd Hne).
